@@ -198,6 +198,19 @@ package fastcgi
 //@   requires r != nil && r.URL != nil && r.Header != nil
 //@   requires [path_can_be_split] rule.splitPos(fpath) >= 0
 //@   ensures result1 == nil ==> result0 != nil
+//@ // C13 "exactly the CGI variables derived from the request": obligations on the stores into the environment map
+//@   at call mapupdate:*#2 before [every_header_as_HTTP_variable_with_all_its_values] arg1 == "HTTP_" + headerNameReplacer.Replace(strings.ToUpper(field)) && arg2 == strings.Join(r.Header[field], ", ")
+//@   at call mapupdate:*#1 before [configured_env_entry_under_its_name] arg1 == envVar[0]
+//@   at call mapupdate:PATH_INFO before [path_info_is_the_rest_after_the_split_string] arg2 == fpath[rule.splitPos(fpath)+len(rule.SplitPath):]
+//@   at call mapupdate:DOCUMENT_URI before [document_uri_ends_with_the_split_string] arg2 == fpath[:rule.splitPos(fpath)+len(rule.SplitPath)]
+//@   at call mapupdate:QUERY_STRING before [query_as_received] arg2 == r.URL.RawQuery
+//@   at call mapupdate:REQUEST_METHOD before [method_as_received] arg2 == r.Method
+//@   at call mapupdate:SERVER_PROTOCOL before [protocol_as_received] arg2 == r.Proto
+//@   at call mapupdate:HTTP_HOST before [host_as_received] arg2 == r.Host
+//@ extern strings.Join
+//@   pure
+//@ extern (*strings.Replacer).Replace
+//@   pure
 //@ // representation invariant of the balancer built by the setup: at least one address, counter starts at -1
 //@ func (*roundRobin).Address
 //@   requires r != nil && len(r.addresses) >= 1 && r.index >= -1
